@@ -428,7 +428,11 @@ def run_case(vk, case):
         else:
             req = elect.model_request(rule, spec, cfg, res, names)
             expect = elect.expect_states(res, names)
-    return {"req": req, "expect": expect, "monitors": monitors, "tags": tags, "failure": failure,
+    # a disagreement on a case that fails for a recorded cause is not counted again where the model describes the
+    # intended behaviour; PluralityVeto's model mirrors the rule as it is, endless loop included (outOfFuel = alarm),
+    # so there every disagreement counts
+    return {"req": req, "expect": expect, "monitors": monitors, "tags": tags,
+            "failure": None if rule == "PluralityVeto" else failure,
             "nontrivial": len(spec["b"]) > 0 and n > 1}
 
 
